@@ -1021,6 +1021,8 @@ def slice_head(table: Table, n: int, *, offset: int = 0) -> Pipeable:
     """
     errors.check_arg_type(int, "slice_head", "n", n)
     errors.check_arg_type(int, "slice_head", "offset", offset)
+    if n < 0 or offset < 0:
+        raise ValueError("`n` and `offset` of `slice_head` must not be negative")
 
     if table._cache.partition_by:
         raise ValueError("cannot apply `slice_head` to a grouped table")
